@@ -10,7 +10,15 @@
 #include "memstats.h"
 #include "memory_managers/array_grid.h"
 #include "memory_managers/orig_grid.h"
+#ifdef HEAP_INTERNALS
+#define private public
+#define protected public
+#include "memory_managers/heap_manager.cc"      /* the heap manager class lives in the .cc file */
+#undef private
+#undef protected
+#else
 #include "memory_managers/heap_manager.h"
+#endif
 #include "memory_managers/freelists.h"
 #include "memory_managers/malloc_style.h"
 using namespace MEDDLY;
@@ -62,8 +70,12 @@ static void check_chunk(int i, const char* which) {
   vp_assert(c[sh_mi[i]] == sh_m[i], "interior slot of a live chunk is never altered by the manager");
 }
 
-static void do_request() {
-  size_t want = vp_range(MINSZ, S);
+static void do_request(size_t want = 0) {
+  // scripted requests (shaped start states) have a fixed size, fixed boundary slots (MSB clear; the manager only ever
+  // tests the MSB of a neighbour's boundary slot) and one symbolic interior slot, so that the start state is a constant
+  // for symbolic execution; free requests are symbolic in size, contents and the position of the interior slot
+  const bool scripted = (want != 0);
+  if (want == 0) want = vp_range(MINSZ, S);
   size_t got = want;
   node_address h = mm->requestChunk(got);
   vp_assert(h != 0, "request succeeds (allocation failure is outside the model)");
@@ -73,8 +85,8 @@ static void do_request() {
     vp_assert(h + got <= sh_h[i] || sh_h[i] + sh_n[i] <= h, "new chunk overlaps no live chunk");
   }
   slot_t* c = (slot_t*) mm->getChunkAddress(h);
-  slot_t f = nondet_slot(msbF), l = nondet_slot(msbL), m = nondet_slot(false);
-  size_t mi = vp_range(0, S-1);
+  slot_t f = scripted ? slot_t(0x1111) : nondet_slot(msbF), l = scripted ? slot_t(0x2222) : nondet_slot(msbL), m = nondet_slot(false);
+  size_t mi = scripted ? got / 2 : vp_range(0, S-1);
   vp_assume(mi < got);
   if (got == 1) { l = f; }
   if (mi == 0) m = f;
@@ -97,6 +109,57 @@ static bool do_recycle(unsigned idx) {
   return did;
 }
 
+// Bookkeeping lemmas behind "no overlap": what the manager records about holes lies inside the used part of the arena,
+// and the manager itself reports every live chunk as in use (hole managers only; the other styles cannot tell).
+static void bookkeeping_check() {
+  if (msbF) for (int i=0; i<MAXLIVE; i++) if (sh_live[i])
+    vp_assert(mm->isAddressInUse(sh_h[i]), "the manager reports a live chunk's address as in use");
+#ifdef HEAP_INTERNALS
+  heap_manager<slot_t>* H = (heap_manager<slot_t>*) mm;
+  node_address last = H->getLastUsed();
+  node_address ch = H->current_hole, hr = H->heap_root;
+  if (ch) {
+    vp_assert(ch >= 1 && ch <= last, "heap manager: the current hole starts inside the used part of the arena");
+    if (ch >= 1 && ch <= last) vp_assert(H->isHole(ch) && ch + node_address(H->getHoleSize(ch)) - 1 <= last, "heap manager: the current hole is a marked hole ending inside the used part of the arena");
+    vp_cover(6);
+  }
+  if (hr) {
+    vp_assert(hr >= 1 && hr <= last, "heap manager: the heap root starts inside the used part of the arena");
+    if (hr >= 1 && hr <= last) vp_assert(H->isHole(hr) && hr + node_address(H->getHoleSize(hr)) - 1 <= last, "heap manager: the heap root is a marked hole ending inside the used part of the arena");
+    vp_assert(H->num_heap_nodes >= 1, "heap manager: a non-empty heap has a positive node count");
+  } else vp_assert(H->num_heap_nodes == 0, "heap manager: an empty heap has node count 0");
+#endif
+}
+
+#ifdef SCRIPT
+// shaped start state: a fixed script (n > 0: request n slots; -k: recycle the k-th chunk requested) puts the manager into a
+// state that a free history of K steps does not reach (split holes, a partly used current hole, several holes), then K nondet steps
+extern "C" void c18_shaped()
+{
+  static const int script[] = { SCRIPT };
+  memstats ms;
+  STYLE st("style");
+  mm = st.initManager(GRAN, MINSZ, ms);
+  vp_assert(mm != nullptr, "manager created for this granularity");
+  msbF = mm->firstSlotMustClearMSB(); msbL = mm->lastSlotMustClearMSB();
+  for (int i=0; i<MAXLIVE; i++) sh_live[i] = false;
+  for (unsigned i=0; i<sizeof(script)/sizeof(int); i++) {
+    if (script[i] > 0) do_request(size_t(script[i])); else do_recycle(unsigned(-script[i]-1));
+    bookkeeping_check();
+  }
+  int recycles = 0, reuse = 0;
+  for (int step=0; step<K; step++) {
+    if (vp_nondet_bool()) { do_request(); if (recycles > 0) reuse++; }
+    else { if (do_recycle(vp_range(0, MAXLIVE-1))) recycles++; }
+    bookkeeping_check();
+  }
+  for (int i=0; i<MAXLIVE; i++) if (sh_live[i]) check_chunk(i, "end");
+  if (recycles > 0) vp_cover(2);
+  if (reuse > 0) vp_cover(3);
+  vp_reach();
+}
+#endif
+
 #ifndef MALLOC_ONLY
 extern "C" void c18_history()
 {
@@ -117,6 +180,7 @@ extern "C" void c18_history()
     } else {
       if (do_recycle(vp_range(0, MAXLIVE-1))) recycles++;
     }
+    bookkeeping_check();
   }
   for (int i=0; i<MAXLIVE; i++) if (sh_live[i]) check_chunk(i, "end");
   if (recycles > 0) vp_cover(2);
